@@ -5,6 +5,9 @@
 //   one-step look-ahead: for EVERY operation op of the alphabet (and every operand),
 //   dump(op(s)) == dump(op(loaded)) and equal return values.
 #include "engine/classes.hh"
+#if VF_GROUP >= 7
+#include "engine/classes_c15x.hh"
+#endif
 using namespace vf;
 
 static Args ARGS;
@@ -225,6 +228,12 @@ int main(int argc, char** argv) {
   run_class(cgsys_adapter(), depth + 1);
   run_class(mip_adapter(), depth + 1);
   run_class(pip_adapter(), depth);
+#elif VF_GROUP == 7
+  run_class(constraint_adapter(), depth);
+  run_class(generator_adapter(), depth);
+  run_class(grid_generator_adapter(), depth);
+  run_class(congruence_adapter(), depth);
+  run_class(ggsys_adapter(), depth + 1);
 #else
 #error "VF_GROUP not set"
 #endif
